@@ -463,9 +463,68 @@ def r04_9(ctx) -> None:
     ctx.count("R04.9", n, 5, "call sites that forward / resolve the sender key")
 
 
+ALG_TRAITS = ("tag_aware", "direct_mode")
+
+
+def r04_12(ctx) -> None:
+    """R04.12  a trait of the key-management algorithm (tag_aware, direct_mode) selects between two ways of treating a recipient: the
+    object whose trait is read is the object that is then used for that recipient.  With mixed algorithms in one general-JSON token a
+    trait read from another recipient's algorithm (hoisted out of the loop, cached, read from the first task) derives a key the
+    decrypting side does not derive."""
+    eng = ctx.eng
+    n = 0
+    km = eng.prog.cls("rfc7516.models:KeyManagement")
+    alg_methods = {m for c in [km] + km.all_subclasses() for m in c.methods if not m.startswith("__")}
+    for fn in eng.prog.all_functions():
+        if not fn.module.name.endswith(("rfc7516.message", "jwe")) or fn.name == "<module>":
+            continue
+        sites = {id(s.node): s for s in eng.cg.calls_in(fn)}
+        for node in fn_nodes(fn):
+            if not isinstance(node, (ast.If, ast.IfExp)):
+                continue
+            owners: Set[str] = set()
+            trait = None
+            for txt in resolve_all(eng, fn, node.test):
+                try:
+                    tree = ast.parse(txt, mode="eval")
+                except SyntaxError:
+                    continue
+                for x in ast.walk(tree):
+                    if isinstance(x, ast.Attribute) and x.attr in ALG_TRAITS:
+                        trait = x.attr
+                        owners.add(norm(x.value))
+            if trait is None:
+                continue
+            branches = (node.body + node.orelse) if isinstance(node, ast.If) else [node.body, node.orelse]
+            for b in branches:
+                for c in ast.walk(b):
+                    if not isinstance(c, ast.Call):
+                        continue
+                    s = sites.get(id(c))
+                    used: List[ast.AST] = []
+                    if isinstance(c.func, ast.Attribute) and (c.func.attr in alg_methods or (s is not None and any(
+                            k.cls is not None and any(a.name == "KeyManagement" for a in k.cls.mro) for k in s.callees))):
+                        used.append(c.func.value)
+                    if s is not None:
+                        for k in s.callees:
+                            if "alg" in k.params and k.cls is None:
+                                a = eng.cg.arg_for_param(s, k, "alg")
+                                if a is not None:
+                                    used.append(a)
+                    for u in used:
+                        n += 1
+                        got = set(resolve_all(eng, fn, u))
+                        ctx.check(got == owners, "R04.12", fn, c, f"{fn.short} :: {trait} of {sorted(owners)} selects {norm(c.func)}",
+                                  f"`{trait}` is read from {sorted(owners)} but the branch it selects works with {sorted(got)}: with recipients of mixed algorithms "
+                                  f"the trait of one algorithm decides how another one is used", f"if <alg>.{trait}: <alg>.…(…) on the same object",
+                                  construct=f"{trait} read from {sorted(owners)} for {sorted(got)} in {fn.short}")
+    ctx.count("R04.12", n, 5, "uses of an algorithm object under a branch on one of its traits")
+
+
 def run(ctx) -> None:
     from .common import forwarding_discipline
     ctx.guard(forwarding_discipline, "R04.11", ['plaintext', 'recipient', 'enc', 'tag', 'cek', 'aad', 'iv', 'ek', 'sender_key', 'protected', 'header'], 65)  # arguments are handed on under their own name (generic routing rule, rules/common.py)
+    ctx.guard(r04_12)
     ctx.guard(r04_9)
     ctx.guard(r04_8)
     ctx.guard(r04_7)
@@ -476,6 +535,8 @@ def run(ctx) -> None:
     ctx.guard_as("R04.6", r17_3)
     from .c08 import r08_3
     ctx.guard_as("R04.10", r08_3)  # plaintext shapes (empty, block-aligned): AES-CBC with PKCS#7 padding from the library, CBC-HMAC layout
+    from .c08 import r08_4
+    ctx.guard_as("R04.13", r08_4)  # ECDH-1PU: both sides compute Ze and Zs from the same key pairs (own private x other public), or nothing decrypts
     ctx.guard(r04_5)
     ctx.guard(r04_1)
     ctx.guard(r04_2)
